@@ -27,11 +27,14 @@ Definition C01_no_fault_full : Prop :=
   forall c ops cid pdu n, wf c -> (cid < n_conns)%nat -> 1 <= len pdu -> 23 <= n ->
     att_input c (srv_final c (srv_init c) ops) cid pdu n <> None.
 
-(* refuted: Prepare Write Request on a CCCD handle (corpus configuration `fixed_handles`, handle 15):
-   check_write() hands a null client configuration to the CCCD attribute (assert / null pointer read) *)
+(* refuted: with include_service<> the shifted handle mapping (C04) lets char_declaration_access assert:
+   Read By Type <<Characteristic>> on the corpus configuration `includes`.
+   (The former witness, Prepare Write Request on a CCCD handle - check_write() handed a null client
+   configuration to the CCCD attribute - is repaired by fix/C07-check-write-connection: see
+   C01_prepare_write_cccd_repaired below.) *)
 Theorem C01_no_fault_refuted : ~ C01_no_fault_full.
 Proof.
-  intros H. apply (H cfg_fixed_handles [] O [22; 15; 0; 0; 0; 1; 0] 23).
+  intros H. apply (H cfg_includes [] O [8; 1; 0; 255; 255; 3; 40] 24).
   - vm_compute. reflexivity.
   - repeat constructor.
   - vm_compute. intros X; discriminate X.
@@ -40,7 +43,14 @@ Proof.
 Qed.
 Print Assumptions C01_no_fault_refuted.
 
-(* a second, independent cause: with include_service<> the shifted handle mapping (C04) lets
+(* the former witness of C01_no_fault_refuted is answered now (corpus configuration `fixed_handles`, handle 15
+   = a CCCD): Prepare Write Response *)
+Example C01_prepare_write_cccd_repaired :
+  exists st', att_input cfg_fixed_handles (srv_init cfg_fixed_handles) O [22; 15; 0; 0; 0; 1; 0] 23
+              = Some (st', [23; 15; 0; 0; 0; 1; 0]).
+Proof. eexists. vm_compute. reflexivity. Qed.
+
+(* the same cause, stated directly: with include_service<> the shifted handle mapping (C04) lets
    char_declaration_access assert: Read By Type <<Characteristic>> on the corpus configuration `includes` *)
 Theorem C01_no_fault_includes_refuted :
   wf cfg_includes /\ att_input cfg_includes (srv_init cfg_includes) O [8; 1; 0; 255; 255; 3; 40] 24 = None.
@@ -77,12 +87,12 @@ Qed.
 Print Assumptions C01_framing_large_mtu_refuted.
 
 (* a range inside a gap of the handle space (corpus configuration `fixed_handles`, 7..7): the Find
-   Information Response is 05 01 without any entry *)
-Theorem C01_framing_empty_list_refuted :
+   Information Response was 05 01 without any entry (former C01_framing_empty_list_refuted); repaired by
+   fix/C02-C03-discovery: Attribute Not Found *)
+Example C01_framing_empty_list_repaired :
   wf cfg_fixed_handles /\
-  exists st', att_input cfg_fixed_handles (srv_init cfg_fixed_handles) O [4; 7; 0; 7; 0] 23 = Some (st', [5; 1]).
+  exists st', att_input cfg_fixed_handles (srv_init cfg_fixed_handles) O [4; 7; 0; 7; 0] 23 = Some (st', [1; 4; 7; 0; 10]).
 Proof. split; [vm_compute; reflexivity|]. eexists. vm_compute. reflexivity. Qed.
-Print Assumptions C01_framing_empty_list_refuted.
 
 (* ---- non-vacuity: a three service configuration; the requests of the Examples are answered *)
 Example C01_wf_nonvacuous : wf cfg_basic3 /\ wf cfg_values /\ wf cfg_mtu300.
